@@ -320,6 +320,34 @@ def shared_loader_history(kind: str, ops: list[tuple]) -> str | None:
         shutil.rmtree(root, ignore_errors=True)
 
 
+def choice_shadow_witness() -> str | None:
+    """Known finding: a CachingChoiceLoader keeps the freshness test of the delegate that
+    supplied the source; a template added LATER to an EARLIER delegate is not picked up
+    (the same situation as /repo e2f7d6d, one level up).  Returns the difference observed."""
+    from liquid2 import CachingChoiceLoader, ChoiceLoader, Environment, FileSystemLoader
+
+    root = Path(tempfile.mkdtemp(prefix="c14w_", dir=os.environ.get("VERIF_SCRATCH", "/var/tmp")))
+    try:
+        for side in ("c", "u"):
+            for sp in SEARCH2:
+                (root / side / sp).mkdir(parents=True)
+        cached = Environment(loader=CachingChoiceLoader([FileSystemLoader(root / "c" / sp) for sp in SEARCH2], auto_reload=True))
+        plain = Environment(loader=ChoiceLoader([FileSystemLoader(root / "u" / sp) for sp in SEARCH2]))
+        for side in ("c", "u"):
+            (root / side / "q" / "t").write_text("base")
+        first = (cached.get_template("t").render(), plain.get_template("t").render())
+        for side in ("c", "u"):
+            (root / side / "p" / "t").write_text("override")
+        second = (cached.get_template("t").render(), plain.get_template("t").render())
+        if first[0] != first[1]:
+            return f"first load: caching {first[0]!r}, non-caching {first[1]!r}"
+        if second[0] != second[1]:
+            return f"after a same-named template was added to the earlier delegate: caching loader gives {second[0]!r}, non-caching loader gives {second[1]!r}"
+        return None
+    finally:
+        shutil.rmtree(root, ignore_errors=True)
+
+
 # ---------------------------------------------------------------- Coq terms
 
 
@@ -640,6 +668,11 @@ def main(chk: C.Check, build: C.Build) -> None:
     if fail:
         chk.finding("cache-key-collision", "namespace 'a/b' + name 'c' and namespace 'a' + name 'b/c' share the cache key 'a/b/c': " + fail,
                     {"history": COLLISION, "steps": res["steps"]})
+
+    fail = choice_shadow_witness()
+    if fail:
+        chk.finding("choice-loader-earlier-delegate-shadowing", fail,
+                    {"how": "harness/c14.py choice_shadow_witness", "loader": "CachingChoiceLoader([FileSystemLoader(p), FileSystemLoader(q)], auto_reload=True)"})
 
     items = [{"case": c_case(p), "model": c_model_run(p),
               "replay": {"kind": h[0], "capacity": h[1], "auto_reload": h[2], "namespace_key": h[3],
